@@ -1,6 +1,7 @@
 import PdfModel.Lemmas.ContentInst
 import PdfModel.Lemmas.ContentTable
 import PdfModel.Lemmas.ContentF32
+import PdfModel.Lemmas.ContentInline
 
 /-!
 # C08 — content-stream operators round-trip and mean what the operator table says
@@ -218,6 +219,50 @@ theorem parse_compositional (allow : Bool) (c : PCfg R) (ts us : List (Tok R)) (
   | oof => rfl
 
 end
+
+-- ---------------------------------------------------------------------------------------------------
+-- byte level of the inline-image construct: where the image data ends (open finding)
+
+open ContentInline in
+/-- Full statement for the end of inline image data: after `ID` and one white-space byte, image data without an
+    `E I` pair, followed by *any* white-space byte, `EI` and then white-space or the end of the stream, is cut
+    out exactly, and reading goes on after `EI`. -/
+def C08_inline_full : Prop :=
+  ∀ (w0 w : UInt8) (data tail : List UInt8), isWs w0 = true → isWs w = true →
+    noEI (w0 :: data) = true → (tail = [] ∨ ∃ t ts, tail = t :: ts ∧ isWs t = true) →
+    inlineData (w0 :: data ++ w :: 69 :: 73 :: tail) = some (data, tail)
+
+open ContentInline in
+/-- What holds of `inline_image`: the statement with the white-space before `EI` restricted to LF
+    (decidable side condition `w = 10`); any first byte after `ID`, any `tail`. -/
+theorem inline_terminator_partial (w0 : UInt8) (data tail : List UInt8)
+    (h : noEI (w0 :: data) = true) :
+    inlineData (w0 :: data ++ 10 :: 69 :: 73 :: tail) = some (data, tail) := by
+  have hf := findLfEI_append (w0 :: data) tail h
+  unfold inlineData
+  simp only [List.cons_append] at hf ⊢
+  rw [hf]
+  have hlen : (w0 :: data).length ≠ 0 := by simp
+  simp only [hlen, if_false, List.length_cons]
+  have h1 : List.take (data.length + 1) (w0 :: (data ++ 10 :: 69 :: 73 :: tail)) = w0 :: data := by
+    simp [List.take_append_of_le_length]
+  have h2 : List.drop (data.length + 1 + 3) (w0 :: (data ++ 10 :: 69 :: 73 :: tail)) = tail := by
+    have : data.length + 1 + 3 = (w0 :: (data ++ [10, 69, 73])).length := by simp
+    rw [this]
+    have e : w0 :: (data ++ 10 :: 69 :: 73 :: tail) = (w0 :: (data ++ [10, 69, 73])) ++ tail := by simp
+    rw [e, List.drop_left]
+  rw [h1, h2]
+  rfl
+
+open ContentInline in
+/-- The code violates the full statement: `ID A EI Q` (space before `EI`) is not terminated at its `EI`
+    (known finding `inline-image:EI-not-after-LF`; the check replays this input on the implementation). -/
+theorem inline_terminator_counterexample : ¬ C08_inline_full := by
+  intro h
+  have := h 32 32 [65] [32, 81, 10] (by decide) (by decide) (by decide)
+    (Or.inr ⟨32, [81, 10], rfl, by decide⟩)
+  revert this
+  decide
 
 -- ---------------------------------------------------------------------------------------------------
 -- non-vacuity: concrete sequences satisfy the hypotheses and exercise every shorthand
